@@ -25,9 +25,9 @@ Definition boot_ok (R : reg) : Prop :=
 Lemma boot_closed : closed_under boot_ids (of_list l_meta).
 Proof. apply closed_under_check_sound. vm_compute. reflexivity. Qed.
 Lemma rulelist_in_boot : In (rid_meta "rulelist") boot_ids.
-Proof. apply memr_In. vm_compute. reflexivity. Qed.
+Proof. apply (proj1 (memr_In _ _)). vm_compute. reflexivity. Qed.
 Lemma rule_in_boot : In (rid_meta "rule") boot_ids.
-Proof. apply memr_In. vm_compute. reflexivity. Qed.
+Proof. apply (proj1 (memr_In _ _)). vm_compute. reflexivity. Qed.
 Lemma sh_id_perm : perm_oracle sh_id.
 Proof. intros l. apply Permutation_refl. Qed.
 
@@ -134,8 +134,8 @@ Qed.
 
 Lemma of_list_in l r : In r (map fst l) -> exists ru, of_list l r = Some ru.
 Proof.
-  unfold of_list. induction l as [|p l IH]; intros H; [contradiction|]. cbn [find].
-  destruct (N.eqb (fst p) r) eqn:E; [eauto|]. apply IH. destruct H as [H|H]; [|exact H].
+  unfold of_list. induction l as [|p l IH]; intros H; [contradiction|]. cbn [find]. cbv beta.
+  match goal with |- context [if ?b then _ else _] => destruct b eqn:E end; [eexists; reflexivity|]. apply IH. destruct H as [H|H]; [|exact H].
   apply N.eqb_neq in E. contradiction.
 Qed.
 
@@ -149,19 +149,48 @@ Proof.
   apply (IH l (S n) m); [|exact H]. intros j o Hj. apply (Hp (S j) o Hj).
 Qed.
 
+(* generic in the base registry B: nothing about the (big, computed) boot registry is unfolded here *)
+Section Prefix.
+  Variables B R : reg.
+  Hypothesis HshapeB : forall j o, nth_error (objs B) j = Some o ->
+    forall d, odef o = Some d -> exists e, nth_error (defs B) d = Some e.
+  Hypothesis HO : forall j o, nth_error (objs B) j = Some o -> nth_error (objs R) j = Some o.
+  Hypothesis HDf : forall d e, nth_error (defs B) d = Some e -> nth_error (defs R) d = Some e.
+
+  Lemma prefix_grammar r : In r (map fst (grammar_list B)) -> grammar_of R r = of_list (grammar_list B) r.
+  Proof.
+    intros Hr. rewrite <- grammar_of_list.
+    assert (exists ru, grammar_of B r = Some ru) as [ru Hru].
+    { rewrite grammar_of_list. apply of_list_in. exact Hr. }
+    unfold grammar_of in *.
+    destruct (nth_error (objs B) (N.to_nat r)) as [o|] eqn:Eo; [|discriminate Hru].
+    rewrite (HO _ _ Eo).
+    assert (Hd : match odef o with Some d => nth_error (defs R) d | None => None end =
+                 match odef o with Some d => nth_error (defs B) d | None => None end).
+    { destruct (odef o) as [d|] eqn:Ed; [|reflexivity].
+      destruct (HshapeB _ _ Eo d Ed) as [e He]. rewrite He. apply HDf. exact He. }
+    rewrite Hd. reflexivity.
+  Qed.
+  Lemma prefix_meta nm k : meta_rule B nm = Some k -> meta_rule R nm = Some k.
+  Proof. unfold meta_rule. apply find_obj_prefix. exact HO. Qed.
+End Prefix.
+
+Lemma boot_reg_grammar R : boot_reg R -> forall r, In r boot_ids -> grammar_of R r = of_list l_meta r.
+Proof.
+  intros [HO HDf] r.
+  pose proof (fun j o H => proj2 (boot_obj j o H)) as Hshape.
+  pose proof (prefix_grammar (r_boot tt) R Hshape HO HDf r) as HP.
+  unfold boot_ids. rewrite l_meta_eq. exact HP.
+Qed.
+Lemma boot_reg_meta R nm k : boot_reg R -> meta_rule (r_boot tt) nm = Some k -> meta_rule R nm = Some k.
+Proof. intros [HO _]. exact (prefix_meta (r_boot tt) R HO nm k). Qed.
+
 Theorem boot_reg_ok : forall R, boot_reg R -> boot_ok R.
 Proof.
-  intros R [HO HDf]. split; [|split].
-  - intros r Hr. rewrite l_meta_eq, <- grammar_of_list.
-    assert (exists ru, grammar_of (r_boot tt) r = Some ru) as [ru Hru].
-    { rewrite grammar_of_list, <- l_meta_eq. apply of_list_in. exact Hr. }
-    unfold grammar_of in *.
-    destruct (nth_error (objs (r_boot tt)) (N.to_nat r)) as [o|] eqn:Eo; [|discriminate Hru].
-    rewrite (HO _ _ Eo). f_equal. f_equal.
-    destruct (odef o) as [d|] eqn:Ed; [|reflexivity].
-    destruct (proj2 (boot_obj _ _ Eo) d Ed) as [e He]. rewrite He. apply HDf. exact He.
-  - unfold meta_rule. apply (find_obj_prefix _ _ (objs (r_boot tt))); [exact HO|]. exact boot_meta_rulelist.
-  - unfold meta_rule. apply (find_obj_prefix _ _ (objs (r_boot tt))); [exact HO|]. exact boot_meta_rule.
+  intros R HR. split; [|split].
+  - exact (boot_reg_grammar R HR).
+  - exact (boot_reg_meta R _ _ HR boot_meta_rulelist).
+  - exact (boot_reg_meta R _ _ HR boot_meta_rule).
 Qed.
 
 Lemma boot_reg_boot : boot_reg (r_boot tt).
